@@ -65,8 +65,16 @@ ALPHABET = (
      (ftpsim.DATACONN, ""), (ftpsim.DATACONN, ""),
      ("USER", "u"), ("USER", "nopw"), ("USER", "nobody"), ("USER", "v"), ("PASS", "pw"), ("PASS", "bad"), ("PASS", "pw2")]
     + [("REST", a) for a in ["0", "3", "10", "100", "abc", "", "٣", "²", "-1", "1 2"]]
+    # the numeric edge of REST: the widest accepted offset (18 digits), 19 / 20 / 25 digits, 2**63, leading zeros, a sign, white
+    # space around the number, and digit strings at / beyond CPython's int() limit (sys.get_int_max_str_digits() = 4300)
+    + [("REST", a) for a in ["1" * 19, "9" * 20, "1" * 25, str(2 ** 63), "0005", "0" * 17 + "7", "0" * 18 + "7", "+5", "5 ", " 5"]]
     + [(v, p) for v in ["CWD", "MKD", "RMD", "DELE", "RNFR", "RNTO", "MLST", "LIST", "MLSD", "RETR", "STOR", "APPE"] for p in PATHS]
 )
+# digit strings at / beyond CPython's int() limit: in the single-event stream and in targeted histories only (kept out of the
+# pair / random products: thousands of 5 kB arguments in one model batch is not what those streams are for)
+# The widest ACCEPTED offset (18 nines) is here too: followed by a transfer it means seeking to 10**18 - in the model
+# (unary skipn / zero fill) and on a memory backend alike - which is not a session anybody can run.
+REST_HUGE = ["1" * 4301, "0" * 5000, "1" * 4300, "9" * 18]
 PAYLOADS = [b"", b"XY", b"abcdefghijklmnop"]
 
 
@@ -78,7 +86,9 @@ def user_sx(u):
 
 def event_sx(e):
     verb, arg, payload = e
-    return [verb.lower() if verb != ftpsim.DATACONN else verb, arg, [payload] if payload is not None else []]
+    # the model's event carries the argument as Server.parse_command hands it to the handler: the decoded line is
+    # str.rstrip()ped today (trailing white space of any kind is not part of the argument: C06 / finding F22)
+    return [verb.lower() if verb != ftpsim.DATACONN else verb, arg.rstrip(), [payload] if payload is not None else []]
 
 
 def decode_out(o):
@@ -138,6 +148,8 @@ def classify(table, events, i, why):
     v = verb.lower()
     if v == "rest" and arg.isdigit() and not arg.isdecimal():
         return "c05-rest-nondecimal-digit-drops-session"
+    if v == "rest" and arg.isascii() and arg.isdigit() and len(arg) > 4300:
+        return "c05-rest-overlong-digit-string-drops-session"
     if v == "epsv" and arg and why in ("ended-unannounced",):
         return "c05-epsv-arg-522-then-session-closed"
     if why == "rest-survives-transfer":
@@ -246,8 +258,8 @@ def oracles(ctx, table, events, obs, backend="memory"):
                      "served": ob["bytes"].decode("latin-1"), "expected": content[armed:].decode("latin-1"), "armed_offset": armed},
                 )
                 return
-        if v == "rest" and codes == ["350"] and arg.isascii() and arg.isdigit():
-            armed = int(arg)
+        if v == "rest" and codes == ["350"] and arg.rstrip().isascii() and arg.rstrip().isdigit() and len(arg.rstrip()) <= 4300:
+            armed = int(arg.rstrip())  # (parse_command strips trailing white space before the handler sees the argument: F22)
         elif v in SUPPORTED:
             armed = 0
         # an UNSUPPORTED verb (502) is not a command of the session: it leaves a pending offset pending (the existing
@@ -357,14 +369,14 @@ def correspondence(ctx, budget=None):
     singles = [(v, a, (b"XY" if v in ("STOR", "APPE") else None)) for v, a in ALPHABET]
     pre_sets = [LOGIN["T1"], LOGIN["T1"] + [("PASV", "", None), (ftpsim.DATACONN, "", None)], []]
     for pre in pre_sets:
-        for e in singles:
+        for e in [("REST", a, None) for a in REST_HUGE] + singles:
             jobs.append(("T1", pre + [e, ("PWD", "", None)], "memory"))
     pairs = list(itertools.product(singles, repeat=2))
     n_pairs = len(pairs) if thorough else (budget or 700)
     for e1, e2 in (pairs if thorough else rng.sample(pairs, n_pairs)):
         pre = LOGIN["T1"] + ([("EPSV", "", None), (ftpsim.DATACONN, "", None)] if rng.random() < 0.6 else [])
         jobs.append(("T1", pre + [e1, e2, ("PWD", "", None)], "memory"))
-    ctx.count("exhaustive_single", len(pre_sets) * len(singles))
+    ctx.count("exhaustive_single", len(pre_sets) * (len(singles) + len(REST_HUGE)))
     ctx.count("pairs", n_pairs)
     # targeted: transfers need listener + data connection; REST sequences
     targeted = [
@@ -377,6 +389,8 @@ def correspondence(ctx, budget=None):
         [("REST", "3", None), ("STOR", "new", b"abc"), (ftpsim.DATACONN, "", None), ("MLSD", "", None)],
         [("CWD", "d", None), ("USER", "nopw", None), ("PWD", "", None), ("USER", "u", None), ("PWD", "", None), ("PASS", "pw", None), ("PWD", "", None)],
         [("STOR", "d", b"x"), ("PWD", "", None)],
+        [("REST", REST_HUGE[0], None), ("PWD", "", None), ("REST", REST_HUGE[1], None), ("RETR", "g", None), ("REST", "4", None), ("REST", REST_HUGE[2], None), ("RETR", "g", None),
+         (ftpsim.DATACONN, "", None), ("REST", REST_HUGE[3], None), ("PWD", "", None), ("RETR", "g", None)],
         # the other RFC 959 type / protection letters and empty arguments (502 each): TYPE/PROT accept exactly I, A / P
         [("TYPE", "E", None), ("TYPE", "L", None), ("TYPE", "i", None), ("TYPE", "", None), ("PROT", "S", None), ("PROT", "", None), ("PROT", "p", None)],
         [("RETR", "g", None), ("PWD", "", None), (ftpsim.DATACONN, "", None), (ftpsim.DATACONN, "", None), ("RETR", "g", None), ("RETR", "g", None)],
